@@ -413,7 +413,7 @@ def run_sbs_blocks(ctx, rep, hook, mdl):
     shapes = [(m, p) for m in range(0, 5) for p in range(0, 5) if m + p > 0]
     cases = []
     # exhaustive pairing patterns for every shape; wrap counts exhaustive for small shapes, sampled otherwise
-    full_wraps = ctx.n(2, 3)
+    full_wraps = ctx.n(2, 6)       # shapes with m + p <= full_wraps: every wrap-count vector in {1,2,3}^(m+p)
     for ci, (args, fmts) in enumerate(cfgs):
         for (m, p) in shapes:
             als = list(alignments(m, p))
@@ -423,7 +423,8 @@ def run_sbs_blocks(ctx, rep, hook, mdl):
                 if m + p <= full_wraps and ci == 0:
                     wraps = list(itertools.product([1, 2, 3], repeat=m + p))
                 else:
-                    wraps = [tuple(1 for _ in range(m + p))] + [tuple(rng.choice([1, 1, 2, 3]) for _ in range(m + p)) for _ in range(ctx.n(1, 6))]
+                    wraps = [tuple(1 for _ in range(m + p))] + [tuple(rng.choice([1, 1, 2, 3]) for _ in range(m + p))
+                                                                 for _ in range(ctx.n(1, 60) if ci == 0 else ctx.n(1, 6))]
                 for w in wraps:
                     a, c = gen_start(rng, small=rng.random() < 0.4), gen_start(rng, small=rng.random() < 0.4)
                     cases.append((ci, m, p, number_alignment(al), w[:m], w[m:], a, c))
@@ -1030,7 +1031,8 @@ def run_binary(ctx, rep, mdl):
         diff = f"diff --git a/f b/f\n--- a/f\n+++ b/f\n{hd}\n{body}"
         rc, out, err = ctx.run_delta(["--no-gitconfig", "--paging=never", "-n"], diff.encode())
         rep.count("binary:overflow-probe:" + ("panic" if rc != 0 else "ok"))
-        rep.notes.setdefault("overflow_probes", []).append(dict(header=hd, rc=rc, stderr=err.decode("utf-8", "replace").split("\n")[0][:160]))
+        msg = [l for l in err.decode("utf-8", "replace").split("\n") if "panicked" in l or "overflow" in l][:2]
+        rep.notes.setdefault("overflow_probes", []).append(dict(header=hd, rc=rc, stderr=" | ".join(msg)[:200]))
 
 
 # ------------------------------------------------------------------ entry points
